@@ -1,0 +1,14 @@
+//go:build verif
+
+package ctree
+
+// VerifHook, when set by the verification harness, is called at every schedule
+// point with the point's name.  It must be set before any goroutine uses the
+// package and not changed afterwards.
+var VerifHook func(string)
+
+func verifPoint(name string) {
+	if h := VerifHook; h != nil {
+		h(name)
+	}
+}
